@@ -58,6 +58,7 @@ static void run_case(long idx)
     /* entry point family for this case: mostly compressStream2 / legacy (chosen per frame by the script), 1 case in 4 (C02, C05) one of the
      * stable-buffer modes, the buffer-less API or ZBUFF */
     int alt = 0; if ((P02 || P05) && vr_chance(&r, 1, 4)) alt = HA_STABLE_IN + (int)vr_u(&r, HA_NB - HA_STABLE_IN);
+    if (P10 && vr_chance(&r, 1, 5)) alt = HA_STABLE_IN + (int)vr_u(&r, 3);      /* C10: stable-buffer modes with the call log (progress, completion, flush decodability) */
     if (HA_IS_LEVELONLY(alt)) { vp_level_only(&P); if (P.level > 19) P.level = 19; }    /* these take a level (or a ZSTD_parameters), not the context's parameter set */
     if (HA_IS_STABLE(alt)) { if (alt != HA_STABLE_OUT) vp_add(&P, ZSTD_c_stableInBuffer, 1); if (alt != HA_STABLE_IN) vp_add(&P, ZSTD_c_stableOutBuffer, 1); vp_redesc(&P); }
     if (P.magicless && nframes > 1) { P.magicless = 0; for (int i = 0; i < P.n; i++) if (P.p[i] == ZSTD_c_format) P.v[i] = 0; }
@@ -90,7 +91,7 @@ static void run_case(long idx)
         size_t cs; ZSTD_parameters zp; memset(&zp, 0, sizeof zp); int adv = 0;
         if (alt) S.api = 0;
         if (!alt) cs = h_run_script(c, x + total, n, &S, dst + ctotal, cap - ctotal, &L, &tooMany);
-        else if (HA_IS_STABLE(alt)) cs = h_run_stable(c, alt, x + total, n, &S, dst + ctotal, cap - ctotal, &tooMany);
+        else if (HA_IS_STABLE(alt)) cs = h_run_stable(c, alt, x + total, n, &S, dst + ctotal, cap - ctotal, &tooMany, &L);
         else if (alt == HA_ZBUFF) cs = h_run_zbuff(P.level, dictMode ? dict : NULL, dictLen, x + total, n, &S, dst + ctotal, cap - ctotal, &tooMany);
         else { hbl B; memset(&B, 0, sizeof B); B.level = P.level; B.dict = dictMode ? dict : NULL; B.dictLen = dictMode ? dictLen : 0; B.pledge = pledge; adv = B.useAdvanced = (int)vr_u(&r, 2);
             if (adv) { zp = ZSTD_getParams(P.level, vr_chance(&r, 1, 2) ? n : 0, B.dictLen);
@@ -115,7 +116,9 @@ static void run_case(long idx)
                 int const hadIn = h->inBefore < h->inSize, hadOut = h->outSize > 0;
                 int const progressed = (h->inAfter > h->inBefore) || (h->outAfter > h->outBefore);
                 if (hadIn && hadOut && !progressed && h->ret != 0) v_viol("progress:call-with-input-and-output-room-did-nothing", "%s call %zu dir=%d ret=%zu", desc, k, h->dir, h->ret);
-                if (h->inAfter < h->inBefore || h->outAfter < h->outBefore || h->inAfter > h->inSize || h->outAfter - h->outBefore > h->outSize) v_viol("progress:position-moved-backwards-or-past-the-buffer", "%s call %zu", desc, k);
+                /* stable-input mode: the library reports input it merely took note of as consumed and takes it back at the start of the next call ("pos can only be updated by zstd"): only there may in.pos be lower after a call */
+                int const stableIn = (alt == HA_STABLE_IN || alt == HA_STABLE_BOTH);
+                if ((h->inAfter < h->inBefore && !stableIn) || h->outAfter < h->outBefore || h->inAfter > h->inSize || h->outAfter - h->outBefore > h->outSize) v_viol("progress:position-moved-backwards-or-past-the-buffer", "%s call %zu: in %zu -> %zu of %zu, out %zu -> %zu room %zu ret=%zu dir=%d", desc, k, h->inBefore, h->inAfter, h->inSize, h->outBefore, h->outAfter, h->outSize, h->ret, h->dir);
                 if (hadIn && hadOut) v_stat("calls_with_input_and_room", 1);
                 if (h->dir != ZSTD_e_continue && h->ret == 0 && h->inAfter < h->inSize) v_viol("completion:directive-reported-complete-with-input-unconsumed", "%s call %zu dir=%s consumed %zu of %zu", desc, k, h->dir == ZSTD_e_end ? "end" : "flush", h->inAfter, h->inSize); }
             /* (b) once flush reported completion, the bytes so far decode to exactly the input consumed so far */
